@@ -154,11 +154,11 @@ func (r *runner) emit(ev string, f map[string]interface{}) {
 	r.mu.Unlock()
 }
 
-func (r *runner) newHC(in *http1.HostClient) *hcInfo {
-	r.mu.Lock()
+// newHCLocked numbers a host client and makes it known to the hook routing; the caller holds r.mu and emits the
+// line that introduces it (New / Config) before it lets go: no event of the host client can precede that line.
+func (r *runner) newHCLocked(in *http1.HostClient) *hcInfo {
 	h := &hcInfo{r: r, id: len(r.hcs) + 1, inner: in}
 	r.hcs = append(r.hcs, h)
-	r.mu.Unlock()
 	hcReg.Store(http1.VerifHostID(in), h)
 	return h
 }
@@ -209,14 +209,16 @@ func (r *runner) setup() {
 // configHook runs inside Client.do while mLock is held, after SetDynamicConfig, before the insert.
 func (r *runner) configHook(x interface{}) error {
 	var h *hcInfo
+	r.mu.Lock()
+	defer r.mu.Unlock()
 	switch v := x.(type) {
 	case *whc:
 		h = v.h
 	case *http1.HostClient:
-		h = r.newHC(v)
+		h = r.newHCLocked(v)
 		h.tls = v.IsTLS
 	default:
-		r.emit("Config", map[string]interface{}{"p": 0, "hc": 0, "addr": fmt.Sprintf("%T", x), "tls": false, "max": 0,
+		r.emitLocked("Config", map[string]interface{}{"p": 0, "hc": 0, "addr": fmt.Sprintf("%T", x), "tls": false, "max": 0,
 			"idleMs": 0, "waitMs": 0, "obs": false, "obsMs": 0, "err": false})
 		return nil
 	}
@@ -226,7 +228,7 @@ func (r *runner) configHook(x interface{}) error {
 	}
 	in := h.inner
 	fail := r.c.HookErr != 0 && r.c.HookErr == p
-	r.emit("Config", map[string]interface{}{"p": p, "hc": h.id, "addr": in.Addr, "tls": in.IsTLS, "max": in.MaxConns,
+	r.emitLocked("Config", map[string]interface{}{"p": p, "hc": h.id, "addr": in.Addr, "tls": in.IsTLS, "max": in.MaxConns,
 		"idleMs": ms(in.MaxIdleConnDuration), "waitMs": ms(in.MaxConnWaitTimeout), "obs": in.StateObserve != nil,
 		"obsMs": ms(in.ObservationInterval), "err": fail})
 	if fail {
